@@ -838,7 +838,42 @@ fn pair_case(family: &'static str, index: u64, r: &mut Rng, pair: CPair, judged:
                 c.count("observed:nonunitary:panic", 1);
             }
         }
-        c.case(family, None);
+        // The arity and tensor clauses do not depend on unitarity, so they ARE judged here:
+        // dim check <=> equal arities; tensor check <=> identical tensors (exact pool);
+        // and a definite Some(false) of the rewriting check still has to mean "not exactly
+        // equal, or different arities" (it is produced by the arity pre-check).
+        let arities_equal = (ma.ni, ma.no) == (mb.ni, mb.no);
+        let det = |what: &str, extra: Value| json!({"what": what, "how": pair.how, "a": circ_json(&pair.a), "b": circ_json(&pair.b), "arities": [[ma.ni, ma.no], [mb.ni, mb.no]], "truth": truth.name(), "extra": extra});
+        match timed_as("equal_circuit_dim", || eq::equal_circuit_dim(&qa, &qb)) {
+            Ok(ans) => {
+                c.count(&format!("nonunitary:dim:{ans}"), 1);
+                if ans != arities_equal {
+                    c.violation(&format!("equal_circuit_dim|answers-{ans}|arities-{}|non-square-circuit", if arities_equal { "equal" } else { "differ" }), family, index, det("dimension check wrong on a non-unitary circuit", json!(ans)));
+                }
+            }
+            Err(e) => c.violation(&format!("equal_circuit_dim|{}|non-square-circuit", pclass(&e)), family, index, det("panic", json!(e.text()))),
+        }
+        if pool == "exact" && !matches!(truth, Truth::Unsure) && pair.a.n <= 4 {
+            match timed_as("equal_circuit_tensor", || eq::equal_circuit_tensor(&qa, &qb)) {
+                Ok(ans) => {
+                    c.count(&format!("nonunitary:tensor:{ans}"), 1);
+                    let want = matches!(truth, Truth::Equal);
+                    if ans != want {
+                        c.violation(&format!("equal_circuit_tensor|answers-{ans}|truth={}|non-square-circuit", truth.name()), family, index, det("tensor check wrong on a non-unitary circuit", json!(ans)));
+                    }
+                }
+                Err(e) => c.violation(&format!("equal_circuit_tensor|{}|non-square-circuit", pclass(&e)), family, index, det("panic", json!(e.text()))),
+            }
+        }
+        for up_to in [true, false] {
+            if let Ok(Some(false)) = timed_as("equal_circuit_with_options", || eq::equal_circuit_with_options(&qa, &qb, up_to)) {
+                if matches!(truth, Truth::Equal) {
+                    c.violation(&format!("equal_circuit_with_options|answered-not-equal|truth=equal|{}|non-square-circuit", if up_to { "up-to-phase" } else { "exact" }), family, index, det("definite 'not equal' on exactly equal non-unitary circuits", json!(null)));
+                }
+            }
+        }
+        let nonsquare = ma.ni != ma.no || mb.ni != mb.no;
+        c.case(family, if nonsquare { Some(crate::gen::circuit::circ_hash(&pair.a) ^ crate::gen::circuit::circ_hash(&pair.b).rotate_left(7)) } else { None });
         return;
     }
 
@@ -988,7 +1023,7 @@ pub fn run() {
     );
     c.assume("gate-matrix simulator O3 (circuit level) and diagram evaluator O2 (graph level) are correct (self-tested at start, cross-checked against each other in C02/C08)");
     c.assume("float pool: pairs closer than 1e-6 but not within 1e-9 are not judged (inconclusive); Some(false)/tensor-false on float-equal pairs is judged for the rewriting check and only observed for the tensor check");
-    c.assume("only unitary circuits are judged (composition with the adjoint is the documented method); ancilla circuits are observed");
+    c.assume("the rewriting check is judged on unitary circuits only (composition with the adjoint is the documented method); on ancilla / post-selected circuits its Some(true) answers are only observed, but the arity check, the tensor check and a definite Some(false) are judged there too (they do not depend on unitarity)");
     let n = t.pick(500usize, 10_000usize);
     let depth = t.pick(12usize, 24usize);
     let mut walls = serde_json::Map::new();
@@ -1015,7 +1050,7 @@ pub fn run() {
     fam!("hadamard-wires", n, true);
     fam!("wire-permutation", n, true);
     fam!("float-heavy-equal", n * 20, true);
-    fam!("ancilla-observed", n / 2, false);
+    fam!("ancilla-observed", n, false);
     c.extra("family_wall_s", Value::Object(walls));
     c.extra("exhaustive", json!(false));
 }
